@@ -114,6 +114,7 @@ type c13Plan struct {
 	two   bool
 	root  bool
 	three bool // three events per version (hook gate before the publishing point)
+	gate  string
 }
 
 func c13Plans(tier string) []c13Plan {
@@ -134,7 +135,8 @@ func c13Plans(tier string) []c13Plan {
 	for _, root := range []bool{false, true} {
 		for n := 2; n <= 3; n++ {
 			for i := range schedulesOf(n, true) {
-				ps = append(ps, c13Plan{n: n, sched: i, root: root, three: true})
+				ps = append(ps, c13Plan{n: n, sched: i, root: root, three: true, gate: "diag.loaded"})
+				ps = append(ps, c13Plan{n: n, sched: i, root: root, three: true, gate: "diag.enter"})
 			}
 		}
 		if tier == "thorough" {
@@ -201,8 +203,13 @@ func runC13(c *Ctx, idx int64) {
 	}
 	var hg *HookGate
 	if pl.three {
-		hg = InstallHookGate("diag.loaded")
+		gate := pl.gate
+		if gate == "" {
+			gate = []string{"diag.loaded", "diag.enter"}[int(idx)%2]
+		}
+		hg = InstallHookGate(gate)
 		defer RemoveHookGate()
+		c.Count("gate:"+gate, 1)
 	}
 	s := NewSession(dir, SessOpt{Root: pl.root, GatePub: true})
 	ndocs := 1
@@ -356,7 +363,7 @@ func runC13(c *Ctx, idx int64) {
 		c.Count("reordering_schedules_attempted", 1)
 	}
 	if reorders || pl.three {
-		c.Nontrivial(HashStr(fmt.Sprint(pl.root) + strings.Join(trace, " ")))
+		c.Nontrivial(HashStr(fmt.Sprint(pl.root, pl.gate, pl.three) + strings.Join(trace, " ")))
 	}
 	if dump != "" {
 		c.Violate(Violation{Kind: "deadlock", Sig: "C13:deadlock", Pool: "n/a", Detail: "server goroutines remain blocked after every parked call was released", Witness: map[string]any{"schedule": trace, "dump": trimStack(dump)}})
